@@ -102,6 +102,8 @@ type Engine struct {
 	inflight   int32
 	upmaxBusy  int32
 	seqNow     uint64
+	lastPolicyPush uint64 // seq at which the policy goroutine last recorded a batch
+	lastClearInv   uint64 // seq of the latest Clear invocation
 	keyHash    []uint64
 	keyConf    []uint64
 	pendingNew map[uint64]int // buffered new items per key hash (probes only)
@@ -345,6 +347,12 @@ func (e *Engine) hooks() *ristretto.VerifHooks {
 // read atomically with the decision (a preemption point follows the release).
 func hookMutexUnlocking(kind int) {
 	e := E
+	if kind == 2 {
+		if t := e.sim.Self(); t != nil && t.Kind == core.KindPolicy {
+			// the policy goroutine has just recorded a batch of accesses
+			atomic.StoreUint64(&e.lastPolicyPush, atomic.LoadUint64(&e.seqNow))
+		}
+	}
 	if kind != 2 || !e.dec9.active || e.dec9.captured {
 		return
 	}
@@ -1247,6 +1255,7 @@ func (e *Engine) runOp(cl *client, oi int, op Op) {
 		e.opBegin(cl, op)
 		atomic.AddInt32(&e.clearActive, 1)
 		inv := e.log(Ev{Kind: EvInvoke, Op: OpClear, Task: tk, OpIx: ix})
+		atomic.StoreUint64(&e.lastClearInv, inv)
 		wasClosed := e.closed
 		e.api.Clear()
 		e.log(Ev{Kind: EvReturn, Op: OpClear, Task: tk, OpIx: ix, Ref: inv, B: b2i(wasClosed)})
